@@ -42,6 +42,9 @@ block    (split_loop + block_loop_arrays)  block sizes as above; arrays: 1-d in/
     `c(:, i)`, 2-d with an inner loop index `c(j, i)`, blocked dimension first `d(i, j)`, array declared with
     lower bound 0 ... only loops `1:n` with unit stride (the copy ranges are written in iteration numbers)
 
+The unroll ranges are batched: one kernel per start value holds one pragma-marked loop per (start, stop, step)
+triple (each with its own outputs); a kernel that fails is bisected down to single triples, unless its body feature
+already fails on the default range in the same way.
 Every combination of <= d switches (d=1 quick, d=2 thorough) of each family x the family's transformation
 variants (direct utility and TransformLoopsTransformation) is built twice (original / transformed, gfortran -O0
 -fcheck=bounds -finit-integer so that a rewrite that reads a no longer assigned variable fails deterministically)
@@ -446,7 +449,7 @@ def s_build(dev):
     else:
         L += [f'do i = {rng}'] + ['  ' + ln for ln in body] + ['end do']
     if dev.get('two_loops_same_tmp'):
-        L += ['do i = 1, m', f'  {tv} = p(i) + 1.0', f'  {pr}{prom}', f'  d(i) = d(i) + {tv}', 'end do']
+        L += ['do i = 1, m', f'  {tv} = p(i) + 1.0', f'  !$loki loop-fission{prom}', f'  d(i) = d(i) + {tv}', 'end do']
     return wrap_kernel(L), GRID_DRIVER
 
 
@@ -572,7 +575,10 @@ FAMILIES = {
                 [('fission', dict(promote=True, warn_loop_carries=True)),
                  ('fission', dict(promote=False, warn_loop_carries=False)),
                  ('trafo', dict(loop_fission=True))],
-                lambda dev, xf, o: not (s_needs_promote(dev) and o.get('promote') is False)),
+                # collapse(2)/inner-only nests x raw_array: e(i + 1) would be updated once per outer iteration, which makes the
+                # outer iterations dependent (fission of both levels is then illegal): never generated
+                lambda dev, xf, o: not (s_needs_promote(dev) and o.get('promote') is False)
+                and not (dev.get('raw_array') and dev.get('nest') in ('collapse2', 'inner_only'))),
     'interchange': (lambda q: I_MENU, i_build,
                     [('interchange', dict(project_bounds=False)), ('interchange', dict(project_bounds=True)),
                      ('trafo', dict(loop_interchange=True, interchange_project_bounds=True))],
@@ -813,6 +819,8 @@ def run(ctx):
     results = w2_xgroup.judge_grouped(ctx, cases, group_worker)
     by_id = {r['id']: r for r in results}
     cases, results, rounds = refine_batches(ctx, cases, results, by_id)
+    results, flaky = w2_xgroup.confirm_violations(ctx, cases, results, group_worker)
+    by_id = {**by_id, **{r['id']: r for r in results}}
     xform.summarise(ctx, cases, results, sigfn(by_id), min_changed=50)
     per_family = {}
     triples_ok = set()
@@ -834,7 +842,7 @@ def run(ctx):
         exhaustive=True,
         bound=dict(max_switches=d, families={f: {k: len(v) for k, v in FAMILIES[f][0](ctx.quick).items()} for f in FAMILIES},
                    unroll_grid=len(grid) + 1, unroll_range_classes=classes, unroll_batches=len(u_batches(ctx.quick))),
-        per_family=per_family, unroll_body_x_triple_ok=len(triples_ok), bisection_rounds=rounds,
+        per_family=per_family, flaky_verdicts=flaky, unroll_body_x_triple_ok=len(triples_ok), bisection_rounds=rounds,
         rule=f'per family all combinations of <= {d} switch settings x transformation variants; unroll: complete literal '
              f'(start,stop,step) grid of {len(grid) + 1} triples, one kernel per start value holding one pragma-marked loop '
              'per triple (failing kernels are bisected to single triples); 2 to 8 input sizes per run; non-trivial = the '
